@@ -71,8 +71,10 @@ EvCmd ==
             /\ (("sr" \in DOMAIN Ev /\ o.r.t = "blocks") => Ev.sr.t = "none")
             /\ ("sargv" \notin DOMAIN Ev)      \* the server executed exactly the request that was sent
             /\ ("unexecuted" \notin DOMAIN Ev) \* ... and it executed every request that was sent
-            /\ S' = o.S
-            /\ devs' = devs \cup o.dv
+            /\ ("aofpartial" \notin DOMAIN Ev)    \* the append-only file ends with a complete frame after every request
+            /\ IF "aof" \in DOMAIN Ev
+               THEN \E x \in AofStep(S, o.S, Ev.c, Ev.argv, Ev.aof, tm) : S' = x.S /\ devs' = devs \cup o.dv \cup x.dv
+               ELSE S' = o.S /\ devs' = devs \cup o.dv
 
 (* a request that got a reply although the server has no record of executing it: an `unlogged` event is
    only acceptable when the client never got an answer (the connection was closed first) *)
@@ -112,14 +114,18 @@ EvRaw ==
 (* the server instance was started with requirepass *)
 EvConfig ==
   /\ Ev.k = "config"
-  /\ S' = [S EXCEPT !.pass = Ev.pass]
+  /\ S' = [S EXCEPT !.pass = IF "pass" \in DOMAIN Ev THEN Ev.pass ELSE S.pass,
+                    !.aof = IF "aof" \in DOMAIN Ev THEN [dbs |-> [d \in DBs |-> EmptyK], db |-> 0] ELSE S.aof]
   /\ UNCHANGED devs
 
 (* hook H4: the server delivered <<key, element>> to a blocked client / timed it out *)
 EvServed ==
   /\ Ev.k = "served"
-  /\ \E S2 \in Served(S, Ev.c, Ev.frames[1]) : S' = S2
-  /\ UNCHANGED devs
+  /\ \E S2 \in Served(S, Ev.c, Ev.frames[1]) :
+       \/ S' = S2 /\ UNCHANGED devs            \* (the pop may be logged together with the next request)
+       \/ /\ S.aof # NoAof /\ "aof_unlogged" \in Deviations
+          /\ S' = [S2 EXCEPT !.aof = [dbs |-> S2.dbs, db |-> S.aof.db]]
+          /\ devs' = devs \cup {"aof_unlogged"}
 EvTimeout ==
   /\ Ev.k = "timeout"
   /\ \E S2 \in TimedOut(S, Ev.c) : S' = S2
@@ -143,6 +149,13 @@ EvRestart ==
   /\ \E S2 \in Restarted(S, [t0 |-> Ev.t0, t1 |-> Ev.t1]) : S' = S2
   /\ UNCHANGED devs
 
+(* the append-only file was re-executed on an empty REAL server and the two servers were dumped and compared by the
+   harness: they must agree unless a listed deviation already explains a difference *)
+EvAofReplay ==
+  /\ Ev.k = "aofreplay"
+  /\ (Ev.ok = 1 \/ devs # {})
+  /\ UNCHANGED <<S, devs>>
+
 EvNote == Ev.k = "note" /\ UNCHANGED <<S, devs>>
 
 EvDropped ==  \* the client saw the server close the connection
@@ -153,7 +166,7 @@ EvDropped ==  \* the client saw the server close the connection
 TraceNext ==
   /\ l <= N
   /\ l' = l + 1
-  /\ (EvOpen \/ EvClose \/ EvReset \/ EvCmd \/ EvNote \/ EvDropped \/ EvUnlogged \/ EvChk \/ EvPush \/ EvQuiesce \/ EvGone \/ EvRaw \/ EvConfig \/ EvServed \/ EvTimeout \/ EvBlockSnap \/ EvRestart)
+  /\ (EvOpen \/ EvClose \/ EvReset \/ EvCmd \/ EvNote \/ EvDropped \/ EvUnlogged \/ EvChk \/ EvPush \/ EvQuiesce \/ EvGone \/ EvRaw \/ EvConfig \/ EvServed \/ EvTimeout \/ EvBlockSnap \/ EvRestart \/ EvAofReplay)
   /\ IF l > TLCGet(1) THEN TLCSet(1, l) /\ TLCSet(3, S') ELSE TRUE   \* deepest matched event (last conjunct!)
 
 TraceSpec == TraceInit /\ [][TraceNext]_vars
